@@ -122,6 +122,8 @@ type Spec struct {
 	OpTab *OpTable `json:"optab,omitempty"`
 	// RawActions, when set, replaces the rendered action of rule i by this text (C19 out-of-range $n etc.)
 	RawActions map[int]string `json:"raw_actions,omitempty"`
+	// ActionNotes: every third action carries a remark in Cyrillic / Japanese / German (multi-byte text inside actions)
+	ActionNotes bool `json:"action_notes,omitempty"`
 }
 
 func (s *Spec) Clone() *Spec {
@@ -542,4 +544,9 @@ func simplifyAct(e *Expr, pos int) *Expr {
 var UserGlobals = []struct {
 	Name string
 	Val  int
-}{{"base", 1009}, {"offset", 2003}, {"total", 3001}, {"count", 4001}, {"scale", 5003}, {"depth", 6007}, {"pos", 7001}, {"look", 8009}}
+}{{"base", 1009}, {"offset", 2003}, {"total", 3001}, {"count", 4001}, {"scale", 5003}, {"depth", 6007}, {"pos", 7001}, {"look", 8009},
+	// the short names people really use for counters and accumulators
+	{"n", 9001}, {"i", 9007}, {"k", 9011}, {"x", 9013}, {"m", 9029}, {"cnt", 9041}, {"idx", 9043}, {"num", 9049}, {"sum", 9059},
+	{"acc", 9067}, {"size", 9091}, {"index", 9103}, {"result", 9109}, {"sym", 9127}, {"top", 9133}, {"rule", 9137}, {"length", 9151},
+	{"line", 9157}, {"col", 9161}, {"level", 9173}, {"tmp", 9181}, {"ret", 9187}, {"res", 9199}, {"state", 9203}, {"stack", 9209},
+	{"value", 9221}, {"tok", 9227}, {"action", 9239}, {"sp", 9241}, {"lhs", 9257}}
